@@ -5,6 +5,10 @@
 pub mod src;
 pub mod c04;
 pub mod c07;
+#[cfg(not(kani))]
+pub mod c09;
+#[cfg(not(kani))]
+pub mod c13;
 pub mod c15;
 pub mod u1;
 pub mod gen_attach;
@@ -25,6 +29,10 @@ pub fn registry() -> Vec<(&'static str, NativeHarness)> {
     let mut v: Vec<(&'static str, NativeHarness)> = vec![];
     v.extend(c04::registry());
     v.extend(c07::registry());
+    #[cfg(not(kani))]
+    v.extend(c09::registry());
+    #[cfg(not(kani))]
+    v.extend(c13::registry());
     v.extend(c15::registry());
     v.extend(u1::registry());
     v.extend(u4::registry());
